@@ -778,3 +778,115 @@ Proof.
   rewrite A, B0. repeat split; auto.
   rewrite (Forall2_len _ _ _ D). exact N.
 Qed.
+
+(* ---------- form 5: <./seg?query>, relative to the directory of the request path ---------- *)
+
+Lemma drop_last_snoc {A} (l : list A) x : drop_last (l ++ [x]) = l.
+Proof.
+  induction l as [|y l IH]; [reflexivity|].
+  change ((y :: l) ++ [x]) with (y :: (l ++ [x])).
+  assert (N : l ++ [x] <> []) by (destruct l; discriminate).
+  destruct (l ++ [x]) as [|z r] eqn:E; [contradiction|].
+  change (drop_last (y :: z :: r)) with (y :: drop_last (z :: r)). now rewrite IH.
+Qed.
+
+Lemma join_cons_ne sep (x : str) l : l <> [] -> join sep (x :: l) = x ++ sep ++ join sep l.
+Proof. destruct l; [contradiction|reflexivity]. Qed.
+
+Lemma join_app_ne sep (l1 l2 : list str) :
+  l1 <> [] -> l2 <> [] -> join sep (l1 ++ l2) = join sep l1 ++ sep ++ join sep l2.
+Proof.
+  intros H1 H2. induction l1 as [|x l1 IH]; [contradiction|].
+  destruct l1 as [|y l1].
+  - simpl app. now rewrite join_cons_ne.
+  - change ((x :: y :: l1) ++ l2) with (x :: (y :: l1) ++ l2).
+    rewrite !join_cons_ne by (try discriminate; destruct l2; discriminate).
+    rewrite IH by discriminate. now rewrite <- !app_assoc.
+Qed.
+
+Lemma seg_ok_no_sl segs : Forall seg_ok segs -> Forall (fun x => contains c_sl x = false) segs.
+Proof. induction 1 as [|s l (_ & A & _) _ IH]; constructor; assumption. Qed.
+
+(* the request path is dirs/lastB, the target dirs/seg, the link "./seg" *)
+Lemma resolve_path_dot_relative dirs lastB seg :
+  Forall seg_ok dirs -> seg_ok lastB -> seg_ok seg ->
+  resolve_path (c_sl :: join [c_sl] (dirs ++ [lastB])) (c_dot :: c_sl :: seg) =
+  c_sl :: join [c_sl] (dirs ++ [seg]).
+Proof.
+  intros Hd Hb Hs.
+  assert (CB : clean_path (c_sl :: join [c_sl] (dirs ++ [lastB])) (dirs ++ [lastB])).
+  { split; [destruct dirs; discriminate|]. split; [|reflexivity]. apply Forall_app. split; [exact Hd|now constructor]. }
+  pose proof (clean_path_split _ _ CB) as SB.
+  unfold resolve_path. cbv zeta. change (c_dot =? c_sl) with false. cbv iota.
+  rewrite SB. change ([] :: dirs ++ [lastB]) with (([] :: dirs) ++ [lastB]). rewrite drop_last_snoc.
+  set (full := (join [c_sl] ([] :: dirs) ++ [c_sl]) ++ c_dot :: c_sl :: seg).
+  assert (EF : full = join [c_sl] (([] :: dirs) ++ [dot; seg])).
+  { unfold full. rewrite <- app_assoc. symmetry. etransitivity; [apply (join_app_ne [c_sl] ([] :: dirs) [dot; seg]); discriminate|]. reflexivity. }
+  assert (NE : full <> []).
+  { rewrite EF. destruct dirs; discriminate. }
+  assert (M : forall (x y : str) (l : str), l <> [] -> match l with [] => x | _ :: _ => y end = y)
+    by (intros ? ? [|? ?] ?; [contradiction|reflexivity]).
+  rewrite M by exact NE. clear M.
+  assert (SF : split_on c_sl full = ([] :: dirs) ++ [dot; seg]).
+  { rewrite EF. apply split_on_join; [destruct dirs; discriminate|].
+    apply Forall_app. split.
+    - constructor; [reflexivity|now apply seg_ok_no_sl].
+    - constructor; [reflexivity|]. constructor; [apply Hs|constructor]. }
+  rewrite SF.
+  assert (FS : fold_left seg_step (([] :: dirs) ++ [dot; seg]) [] = [] :: dirs ++ [seg]).
+  { rewrite fold_left_app. cbn [fold_left]. change (seg_step [] []) with [[] : str].
+    rewrite fold_seg_plain by exact Hd.
+    unfold seg_step at 2. change (str_eqb dot dot) with true. cbv iota.
+    destruct (seg_ok_not_dots seg Hs) as [A B0].
+    unfold seg_step. rewrite A, B0. cbn [app]. reflexivity. }
+  rewrite FS.
+  assert (LS : last (([] :: dirs) ++ [dot; seg]) [] = seg).
+  { change (([] :: dirs) ++ [dot; seg]) with (([] :: dirs) ++ [dot] ++ [seg]). rewrite app_assoc. apply last_last. }
+  unfold str in *. rewrite LS.
+  destruct (seg_ok_not_dots seg Hs) as [A B0]. unfold str in *. rewrite A, B0. cbn [orb].
+  rewrite join_cons_ne by (destruct dirs; discriminate).
+  cbn [app]. change (c_sl =? c_sl) with true. cbv iota. reflexivity.
+Qed.
+
+Theorem resolve_dot_relative base dirs lastB seg Q :
+  s_path base = c_sl :: join [c_sl] (dirs ++ [lastB]) ->
+  Forall seg_ok dirs -> seg_ok lastB -> seg_ok seg ->
+  forallb path_char seg = true -> forallb query_char Q = true ->
+  link_ok (c_dot :: c_sl :: seg ++ c_qm :: Q) ->
+  resolve_ref base (c_dot :: c_sl :: seg ++ c_qm :: Q) =
+  ROk (mkS (s_scheme base) (s_host base) (c_sl :: join [c_sl] (dirs ++ [seg])) Q).
+Proof.
+  intros EB Hd Hb Hs HP HQ HL.
+  unfold resolve_ref, parse_ref. unfold link_ok in HL.
+  change (fun c => (33 <=? c) && (c <=? 126)) with printable. rewrite HL. cbn [negb orb].
+  assert (NH : contains c_hash (c_dot :: c_sl :: seg ++ c_qm :: Q) = false).
+  { simpl. rewrite contains_app. rewrite (no_hash_path seg HP). simpl.
+    change (existsb (fun d => d =? c_hash) Q) with (contains c_hash Q). now rewrite (no_hash_query Q HQ). }
+  rewrite NH.
+  change (get_scheme (c_dot :: c_sl :: seg ++ c_qm :: Q)) with SNone. cbv iota.
+  unfold parse_rest.
+  change (c_dot :: c_sl :: seg ++ c_qm :: Q) with ((c_dot :: c_sl :: seg) ++ c_qm :: Q).
+  rewrite cut_app by (simpl; now apply no_qm_path).
+  cbn [has_prefix cut]. change (c_sl =? c_dot) with false. change (c_dot =? c_sl) with false.
+  change (c_sl =? c_sl) with true. cbv iota. cbn [andb negb fst contains existsb orb].
+  change (c_dot =? c_col) with false. cbn [orb andb].
+  assert (PC : forallb path_char (c_dot :: c_sl :: seg) = true) by (simpl; exact HP).
+  rewrite (no_bad_pct _ PC), PC, HQ. cbn [andb].
+  cbn [p_scheme p_host p_path p_query]. rewrite EB.
+  now rewrite (resolve_path_dot_relative dirs lastB seg Hd Hb Hs).
+Qed.
+
+Theorem next_request_dot_relative c base dirs lastB seg Q trailer :
+  s_path base = c_sl :: join [c_sl] (dirs ++ [lastB]) ->
+  Forall seg_ok dirs -> seg_ok lastB -> seg_ok seg ->
+  forallb path_char seg = true -> forallb query_char Q = true ->
+  link_ok (c_dot :: c_sl :: seg ++ c_qm :: Q) -> contains c_gt (c_dot :: c_sl :: seg ++ c_qm :: Q) = false ->
+  next_request c base (c_lt :: (c_dot :: c_sl :: seg ++ c_qm :: Q) ++ c_gt :: trailer) =
+  NNext (c_sl :: join [c_sl] (dirs ++ [seg])) (request_query c Q []).
+Proof.
+  intros EB Hd Hb Hs HP HQ HL Hgt.
+  rewrite (next_request_of_target c base _ trailer
+             (mkS (s_scheme base) (s_host base) (c_sl :: join [c_sl] (dirs ++ [seg])) Q)); auto.
+  - now apply resolve_dot_relative with (lastB := lastB).
+  - discriminate.
+Qed.
